@@ -63,16 +63,21 @@ struct PmCase {
     cells: Vec<(Felt, Felt)>,
     headers: Vec<(Felt, Felt, Felt, Felt)>, // start, size, hash, prod
     slack: u64,
+    /// extra padding cells 2^k (column sizes at and beyond 2^32 / 2^64)
+    slack_pow: Option<u32>,
     pad: (Felt, Felt),
     z: Felt,
     alpha: Felt,
 }
 impl PmCase {
+    fn slack_total(&self) -> BigUint {
+        BigUint::from(self.slack) + self.slack_pow.map(crate::kit::pow2).unwrap_or_default()
+    }
     fn to_json(&self) -> Value {
         json!({"kind": "pubmem",
             "cells": self.cells.iter().map(|c| [fhex(&c.0), fhex(&c.1)]).collect::<Vec<_>>(),
             "headers": self.headers.iter().map(|h| [fhex(&h.0), fhex(&h.1), fhex(&h.2), fhex(&h.3)]).collect::<Vec<_>>(),
-            "slack": self.slack, "pad": [fhex(&self.pad.0), fhex(&self.pad.1)], "z": fhex(&self.z), "alpha": fhex(&self.alpha)})
+            "slack": self.slack, "slack_pow": self.slack_pow, "pad": [fhex(&self.pad.0), fhex(&self.pad.1)], "z": fhex(&self.z), "alpha": fhex(&self.alpha)})
     }
     fn from_json(v: &Value) -> Option<PmCase> {
         let fh = |x: &Value| Felt::from_hex(x.as_str()?).ok();
@@ -80,6 +85,7 @@ impl PmCase {
             cells: v["cells"].as_array()?.iter().map(|c| Some((fh(&c[0])?, fh(&c[1])?))).collect::<Option<_>>()?,
             headers: v["headers"].as_array()?.iter().map(|c| Some((fh(&c[0])?, fh(&c[1])?, fh(&c[2])?, fh(&c[3])?))).collect::<Option<_>>()?,
             slack: v["slack"].as_u64()?,
+            slack_pow: v.get("slack_pow").and_then(|x| x.as_u64()).map(|x| x as u32),
             pad: (fh(&v["pad"][0])?, fh(&v["pad"][1])?),
             z: fh(&v["z"])?,
             alpha: fh(&v["alpha"])?,
@@ -109,7 +115,7 @@ impl PmCase {
     /// naive product on big integers; None when a factor vanishes (division by zero: not judged here)
     fn reference(&self) -> Option<BigUint> {
         let (z, a) = (f2b(&self.z), f2b(&self.alpha));
-        let size = self.total() + BigUint::from(self.slack);
+        let size = self.total() + self.slack_total();
         let mut den = BigUint::one();
         for c in &self.cells {
             den = zint::mul(&den, &zint::sub(&z, &zint::add(&f2b(&c.0), &zint::mul(&a, &f2b(&c.1)))));
@@ -118,7 +124,7 @@ impl PmCase {
             den = zint::mul(&den, &f2b(&h.3));
         }
         let pad = zint::sub(&z, &zint::add(&f2b(&self.pad.0), &zint::mul(&a, &f2b(&self.pad.1))));
-        den = zint::mul(&den, &zint::pow(&pad, &BigUint::from(self.slack)));
+        den = zint::mul(&den, &zint::pow(&pad, &self.slack_total()));
         if den.is_zero() {
             return None;
         }
@@ -129,7 +135,7 @@ impl PmCase {
             Some(w) => w,
             None => return ("vanishing-factor".into(), None),
         };
-        let size = crate::kit::b2f(&(self.total() + BigUint::from(self.slack)));
+        let size = crate::kit::b2f(&(self.total() + self.slack_total()));
         let pi = self.public_input();
         let (z, alpha) = (self.z, self.alpha);
         match panics::catch(|| pi.get_public_memory_product_ratio(z, alpha, size)) {
@@ -253,11 +259,32 @@ pub fn run(ctx: &Ctx) -> Report {
                                 cells: pg.iter().map(|&i| cell_menu[i]).collect(),
                                 headers: hs.iter().map(|&i| hdr_menu[i]).collect(),
                                 slack,
+                                slack_pow: None,
                                 pad: *pad,
                                 z: *z,
                                 alpha: *a,
                             });
                         }
+                    }
+                }
+            }
+        }
+    }
+    // column sizes at and beyond 2^32 / 2^64 (exponents that do not fit a machine word)
+    for pg in pages.iter().filter(|p| p.len() <= 1) {
+        for hs in &hdr_sets {
+            for &slack in &[0u64, 1] {
+                for k in [32u32, 63, 64, 70, 100, 127] {
+                    for pad in &pad_menu[..2] {
+                        cases.push(PmCase {
+                            cells: pg.iter().map(|&i| cell_menu[i]).collect(),
+                            headers: hs.iter().map(|&i| hdr_menu[i]).collect(),
+                            slack,
+                            slack_pow: Some(k),
+                            pad: *pad,
+                            z: zmenu[zmenu.len() - 1],
+                            alpha: amenu[amenu.len() - 1],
+                        });
                     }
                 }
             }
@@ -271,7 +298,7 @@ pub fn run(ctx: &Ctx) -> Report {
         }
         rep.sample(&format!("{}-{}-{}", class, c.cells.len(), c.headers.len()), c.to_json());
         if let Some(b) = bad {
-            let key = format!("public_memory_ratio:{}:{}", class, if c.slack == 0 { "no-padding" } else { "padded" });
+            let key = format!("public_memory_ratio:{}:{}", class, if c.slack_pow.is_some() { "huge-column" } else if c.slack == 0 { "no-padding" } else { "padded" });
             rep.violation(&key, &b, c.to_json());
         }
     }
